@@ -351,6 +351,7 @@ func checkC10(P *Program, r *Result, tier string) {
 	}
 	sectionRules(P, r, "SECTION-COMPLETE", "MAP-KEEP")
 	copyRules(P, r, "COPIES", []*ssa.Function{P.Func(relTT, "ReadString2BLen")})
+	primCountRule(P, r, "SECTIONS")
 	r.Extra["contracts"] = run.contractSummary()
 	r.assume("bufiox.Reader.Next returns exactly n bytes when err == nil; int is 64 bits")
 }
@@ -1499,7 +1500,24 @@ func ttProtoCheck(P *Program) *ssa.Function {
 
 func ttReadKV(P *Program) *ssa.Function {
 	return P.findReachable([]*ssa.Function{P.Func(relTT, "Decode")}, func(f *ssa.Function) bool {
-		return sigIs(f, "(int, []byte)", "(map[uint16]string, map[string]string, error)")
+		// by its results: the two maps and an error (the cursor may be an index into the buffer or an advancing sub-slice)
+		res := f.Signature.Results()
+		if res.Len() < 3 || !isErrorType(res.At(res.Len()-1).Type()) {
+			return false
+		}
+		nm := 0
+		for i := 0; i < res.Len(); i++ {
+			if _, isMap := res.At(i).Type().Underlying().(*types.Map); isMap {
+				nm++
+			}
+		}
+		hasBuf := false
+		for _, p := range f.Params {
+			if isByteSlice(p.Type()) {
+				hasBuf = true
+			}
+		}
+		return nm == 2 && hasBuf
 	})
 }
 
@@ -1523,12 +1541,22 @@ func ttWriteKV(P *Program) *ssa.Function {
 // isSectionReader: an unexported ttheader function that parses one info section:
 // takes the cursor (*int), the buffer and the destination map.
 func isSectionReader(f *ssa.Function) bool {
-	if f == nil || f.Blocks == nil || len(f.Params) != 3 {
+	if f == nil || f.Blocks == nil {
+		return false
+	}
+	// the cursor as an advancing sub-slice: (buf, map) → (rest, error)
+	if len(f.Params) == 2 && isByteSlice(f.Params[0].Type()) && f.Signature.Results().Len() == 2 && isByteSlice(f.Signature.Results().At(0).Type()) {
+		_, isMap := f.Params[1].Type().Underlying().(*types.Map)
+		return isMap
+	}
+	if len(f.Params) != 3 {
 		return false
 	}
 	_, isPtr := f.Params[0].Type().Underlying().(*types.Pointer)
 	_, isMap := f.Params[2].Type().Underlying().(*types.Map)
-	return isPtr && isByteSlice(f.Params[1].Type()) && isMap
+	// the cursor by reference, or by value with the next position handed back
+	byValue := isPlainInt(f.Params[0].Type()) && f.Signature.Results().Len() >= 2 && isPlainInt(f.Signature.Results().At(0).Type())
+	return (isPtr || byValue) && isByteSlice(f.Params[1].Type()) && isMap
 }
 
 // numHeadersRule: the pair count written in front of a key/value section equals
@@ -1800,4 +1828,97 @@ func sizeThreadingCluster(root *ssa.Function) []*ssa.Function {
 		}
 	}
 	return out
+}
+
+// primCountRule: the callers of ReadString2BLen advance their cursor by its
+// second result, so on every successful return that result is the two
+// prefix bytes plus the length of the string handed back, and the string is
+// the bytes right behind the prefix.
+func primCountRule(P *Program, r *Result, rule string) {
+	fn := P.Func(relTT, "ReadString2BLen")
+	if !r.require("ttheader.ReadString2BLen", fn != nil) {
+		return
+	}
+	if len(fn.Params) != 2 || fn.Signature.Results().Len() != 3 {
+		r.fatal("ReadString2BLen: unexpected signature %s", fn.Signature)
+	}
+	r.Funcs[shortName(fn)] = true
+	fa := newAnalysis(P).fa(fn)
+	off := fa.expand(fn.Params[1])
+	n := 0
+	// a returned value seen through the merge of a single exit
+	type path struct {
+		vals []ssa.Value
+		at   *ssa.BasicBlock
+	}
+	for _, ret := range returnsOf(fn) {
+		var paths []path
+		var phis []*ssa.Phi
+		for _, v := range ret.Results {
+			if ph, ok := v.(*ssa.Phi); ok && ph.Block() == ret.Block() {
+				phis = append(phis, ph)
+			}
+		}
+		if len(phis) == 0 {
+			paths = []path{{ret.Results, ret.Block()}}
+		} else {
+			for i, pb := range ret.Block().Preds {
+				var vs []ssa.Value
+				for _, v := range ret.Results {
+					if ph, ok := v.(*ssa.Phi); ok && ph.Block() == ret.Block() {
+						v = ph.Edges[i]
+					}
+					vs = append(vs, v)
+				}
+				paths = append(paths, path{vs, pb})
+			}
+		}
+		for _, p := range paths {
+			if fa.prove(ineqGE(fa.nilExpand(p.vals[2]), linConst(1)), p.at, rootCtx) {
+				continue
+			}
+			n++
+			sv := p.vals[0]
+			var d *SliceDesc
+			if c, ok := sv.(*ssa.Const); ok && c.Value != nil && c.Value.Kind() == constant.String {
+				d = &SliceDesc{Len: linConst(int64(len(constant.StringVal(c.Value))))}
+			} else {
+				if cv, ok := sv.(*ssa.Convert); ok {
+					sv = cv.X
+				}
+				d = fa.sliceDesc(sv)
+			}
+			cnt := fa.expand(p.vals[1])
+			ok := d != nil && d.Len != nil && fa.proveEq(cnt, d.Len.addConst(2), p.at)
+			r.add(rule, shortName(fn), "count", "on success the count handed back is 2 + the length of the string (the callers advance their cursor by it)", P.pos(instrPos(ret)), ok, "")
+			if d != nil && d.Root != nil {
+				// the length is the big-endian 16-bit prefix at off
+				okLen := false
+				for _, c := range callsIn(fn) {
+					cc, isCall := c.(*ssa.Call)
+					cal := c.Common().StaticCallee()
+					if !isCall || cal == nil {
+						continue
+					}
+					args := c.Common().Args
+					var lv ssa.Value
+					switch {
+					case inRepo(cal) && cal.Name() == "Bytes2Uint16" && len(args) == 2 && args[0] == ssa.Value(fn.Params[0]) && fa.proveEq(fa.expand(args[1]), off, p.at):
+						lv = resultValue(cc, 0)
+					case fnPkgPath(cal) == "encoding/binary" && cal.Name() == "Uint16" && len(args) == 2:
+						if ad := fa.sliceDesc(args[1]); ad != nil && ad.Root == ssa.Value(fn.Params[0]) && ad.Off != nil && fa.proveEq(ad.Off, off, p.at) {
+							lv = cc
+						}
+					}
+					if lv != nil && (cc.Block() == p.at || cc.Block().Dominates(p.at)) && fa.proveEq(d.Len, fa.expand(lv), p.at) {
+						okLen = true
+					}
+				}
+				r.add(rule, shortName(fn), "length", "the string's length is the 16-bit prefix read at the offset given", P.pos(instrPos(ret)), okLen, "")
+				okAt := d.Root == ssa.Value(fn.Params[0]) && d.Off != nil && fa.proveEq(d.Off, off.addConst(2), p.at)
+				r.add(rule, shortName(fn), "bytes", "the string is the bytes right behind the two prefix bytes", P.pos(instrPos(ret)), okAt, "")
+			}
+		}
+	}
+	r.require("ReadString2BLen: a return that can succeed", n > 0)
 }
